@@ -159,6 +159,18 @@ func (ec *emCtx) simplifySel(t *sx) *sx {
 	return nil
 }
 
+func hasVar(p *sx, vars map[string]bool) bool {
+	if p.list == nil {
+		return vars[p.atom]
+	}
+	for _, c := range p.list {
+		if hasVar(c, vars) {
+			return true
+		}
+	}
+	return false
+}
+
 func isZeroLit(t *sx) bool { return t.list == nil && t.atom == "#x0000000000000000" }
 
 // match extends the binding so that pattern p equals ground term g (syntactically, modulo
@@ -166,6 +178,12 @@ func isZeroLit(t *sx) bool { return t.list == nil && t.atom == "#x00000000000000
 func (ec *emCtx) match(p, g *sx, vars map[string]bool, m map[string]*sx, depth int) bool {
 	if depth > 12 {
 		return false
+	}
+	if ec.inGoal && depth == 1 && !hasVar(p, vars) {
+		// a witness for an exists of the goal: any term standing where the bound variable
+		// stands in an application of the same symbol is a candidate; whether the other
+		// arguments agree is for the solver to decide (they may be equal only semantically)
+		return true
 	}
 	if p.list == nil {
 		if vars[p.atom] {
